@@ -985,7 +985,7 @@ def run(ctx):
         else:
             mt = mdp_term(p, case)
             ordt = ord_term(p, case, res)
-            tol = q(F(1, 10**9))
+            tol = q(p.tiny)       # absolute: 1e-13 * largest operand magnitude (float noise of one look-ahead)
             epsl = q(p.margin + p.tiny)
             opst = coqlist(op_term(o) for o in mops)
             terms.append("rpl %s %s %s %s %s %s %s %s %s" % (mt, epsl, ordt, tol, qlist(p.h), opst, blist(p.solved), qlist(p.V), natlist(p.pi)))
@@ -1048,7 +1048,7 @@ def run(ctx):
                 if len(ctx.violations) < 40:      # first failing operation (index, 1 = guard / 2 = value), for the replay file
                     mops = machine_ops(res["ops"])
                     dv = ctx.coq(PRE, ["rdiag %s %s %s %s %s %s" % (mdp_term(p, case), q(p.margin + p.tiny), ord_term(p, case, res),
-                                                               q(F(1, 10**9)), qlist(p.h), coqlist(op_term(o) for o in mops))], tag="diag")
+                                                               q(p.tiny), qlist(p.h), coqlist(op_term(o) for o in mops))], tag="diag")
                     if dv and not isinstance(dv[0], vlib.CoqError):
                         k = dv[0][0]
                         diag = {"index": k, "code": dv[0][1], "op": mops[k] if k < len(mops) else None}
